@@ -67,7 +67,19 @@ def gen_string_program(rng):
             decls.append("s%d: str-slice(%s, 2) to-upper-case(%s);" % (i, lit, lit))
         else:
             decls.append("s%d: url(%s) format(%s);" % (i, lit, lit))
-    sel = rng.choice(["a", ".é", "[x=%s]" % rng.choice(['"a b"', "'q'", '"é"']), "a::after"])
+    if rng.chance(0.5):
+        # attribute values: the serializer decides per value whether the quotes may go (identifier boundary shapes)
+        q = rng.choice(['"', "'"])
+        if rng.chance(0.6):
+            av = rng.choice(["-", "-1", "--", "--x", "-a", "-a1", "1a", "a1", "", "a-", "_", "-_", "-\\31 ", "é", "a.b", "a#b", "a b", "0", "-0.5",
+                             "a\\.b", "\\-", "-é", "a,b", "a]", "[", "a=b", "-\\-", "\\", "a\\ b", "A", "--1", "-\\0", "i", "a i"])
+        else:
+            av = "".join(rng.choice(QUOTE_ATOMS[q]) if rng.chance(0.1) else rng.choice(CHARS) for _ in range(rng.range(0, 4)))
+        sel = "[x%s%s%s%s%s]" % (rng.choice(["=", "~=", "|=", "^=", "$=", "*="]), q, av, q, rng.choice(["", "", " i", " s"]))
+        if rng.chance(0.3):
+            sel = rng.choice(["a", ".b", ":not(%s)", ":is(a, %s)", "%s > b", "a %s%s"]).replace("%s", sel)
+    else:
+        sel = rng.choice(["a", ".é", "[x=%s]" % rng.choice(['"a b"', "'q'", '"é"']), "a::after"])
     out = "%s { %s }" % (sel, " ".join(decls))
     if rng.chance(0.2):
         out += '\n@import %s;' % rng.choice(['"a.css"', "url(b.css)", '"c" screen'])
